@@ -44,13 +44,38 @@ func execOp(line string) (res string) {
 	// harness overwrites them, as a caller recycling its buffers would.  A library that kept the slice instead of a copy
 	// shows in a later answer.
 	var argBufs [][]byte
+	// byte slices RETURNED by the library belong to the caller as well: once rendered they are overwritten too, as a caller
+	// that decodes into a result and then edits it in place would.  A library that handed out a slice it also keeps (a cache
+	// entry, a memo, a pooled buffer) shows in a later answer (second pass, sequence ops, cross-talk history).
+	var resBufs [][]byte
+	hx := func(b []byte) string {
+		resBufs = append(resBufs, b)
+		return hx(b)
+	}
+	// ... and so do the integers inside returned keys, points and signatures
+	var resInts []*big.Int
+	nhx := func(v *big.Int) string {
+		resInts = append(resInts, v)
+		return nhx(v)
+	}
+	ptStr := func(x, y *big.Int) string { return nhx(x) + " " + nhx(y) }
 	defer func() {
 		if r := recover(); r != nil {
 			res = "panic"
 		}
+		for _, v := range resInts {
+			if v != nil {
+				v.SetInt64(0x5a5a5a)
+			}
+		}
 		for _, b := range argBufs {
 			for i := range b {
 				b[i] = 0x5a
+			}
+		}
+		for _, b := range resBufs {
+			for i := range b {
+				b[i] = 0xa5
 			}
 		}
 	}()
@@ -310,6 +335,10 @@ func execOp(line string) (res string) {
 		sig2, err2 := privOf(Nn(0)).Sign(Hb(1))
 		if err2 != nil || !sig.IsEqual(sig2) {
 			return "nondeterministic"
+		}
+		// "that signature verifies under the public key d*G for the same hash" — asked of the library's own Verify
+		if !sig.Verify(Hb(1), privOf(Nn(0)).PubKey()) {
+			return "ok " + nhx(sig.R) + " " + nhx(sig.S) + " own-signature-does-not-verify"
 		}
 		return "ok " + nhx(sig.R) + " " + nhx(sig.S)
 	case "sign.seq":
